@@ -156,7 +156,9 @@ func runTar(ctx context.Context, opt tarOptions, args []string) error {
 		return err
 	}
 
-	index.Index.FeatureFlags |= desync.TarFeatureFlags
+	// Add the archive feature flags. The digest flag was set according to
+	// the digest in use when chunking and must not be forced on here.
+	index.Index.FeatureFlags |= desync.TarFeatureFlags &^ desync.CaFormatSHA512256
 
 	// See if Tar encountered an error along the way
 	if tarErr != nil {
